@@ -51,11 +51,22 @@ def scenarios(tier, seed):
             d, told = rnd.choice(OUTCOMES)
             bcs.append({"delivered": d, "told": told, "include": rnd.choice(INCLUDES)})
         out.append({"head": sessions[0]["head"], "family": "B", "broadcasts": bcs, "sessions": sessions})
+    # family C: blocks of 600 kB (a submission holds one; the next block is pushed back) with a crash around the second
+    # and third submission, and a restart
+    K = 1000
+    big = {str(h): [[1, 600 * K]] for h in range(1, 5)}
+    for c in [("prepare", 2, "before"), ("broadcast", 2, "before"), ("broadcast", 2, "after"), ("gettx", 2, "before"),
+              ("prepare", 3, "before"), ("broadcast", 3, "after")]:
+        for (d, told), inc in [((True, "ok"), "polls:1"), ((True, "timeout"), "on_crash"), ((False, "error"), "never")]:
+            out.append({"head": 4, "family": "C", "blocks": big,
+                        "broadcasts": [{"delivered": True, "told": "ok", "include": "polls:1"},
+                                       {"delivered": d, "told": told, "include": inc}],
+                        "sessions": [{"crash": crash(c), "limit_secs": 100}, {"crash": crash(CRASHES[0]), "limit_secs": 400}]})
     if tier == "quick":
         a = [s for s in out if s["family"] == "A"]
         b = [s for s in out if s["family"] == "B"]
         rnd.shuffle(a)
-        out = a[:120] + b
+        out = a[:120] + b + [s for s in out if s["family"] == "C"]
     for i, s in enumerate(out):
         s["id"] = i
     return out
@@ -131,6 +142,9 @@ def property_on_observation(res):
                     bad.append("FileHonest")
     if any(o.startswith("panicked") for o in res["outcomes"]):
         bad.append("panic")
+    # a relayer that stops because it will not read the state file it wrote itself
+    if any(o.startswith("exited with error") and ("submission state" in o or "submission-state" in o) for o in res["outcomes"]):
+        bad.append("FileReadable:relayer-refuses-its-own-state-file")
     return sorted(set(bad))
 
 
@@ -260,7 +274,8 @@ def run(tier, seed, corrupt=False):
         "distinct_nontrivial": len(scen),
         "rule": "crash / fault scenarios: family A = every (first broadcast outcome x inclusion timing x crash point) followed "
                 "by a clean restart; family B = seeded random sequences of 2-4 process lives with repeated crashes, a growing "
-                "chain, interrupted temp-file writes; each recorded event log validated by TLC against RelayerTrace.tla with "
+                "chain, interrupted temp-file writes; family C = 600 kB blocks (one per submission, the next pushed back) with a "
+                "crash around the second and third submission; each recorded event log validated by TLC against RelayerTrace.tla with "
                 "NoGap, FileHonest, FileReadable, MemHonest evaluated in every state",
         "events_by_kind": ev_kinds,
         "session_outcomes": outcomes,
